@@ -18,7 +18,22 @@ PROPS_FILE = "Props/C13.v"
 GEN_DEPS: List[str] = ["GenRegex", "GenBrace", "GenChars"]
 ALLOWED_AXIOMS: List[str] = []
 THEOREMS: Dict[str, str] = {
-    "C13_model_example": "example",
+    "C13_pin_patterns": "example",
+    "C13_pin_constants": "example",
+    "C13_replace_once": "full",
+    "C13_replace_once_ex": "example",
+    "C13_blocks_exact": "full",
+    "C13_is_recipe_block_ex": "example",
+    "C13_groups": "full",
+    "C13_groups_concat": "full",
+    "C13_groups_shape": "full",
+    "C13_groups_ex": "example",
+    "C13_compile_per_group": "full",
+    "C13_render_spec": "full",
+    "C13_no_residue": "full",
+    "C13_rng_independent": "full",
+    "C13_hypotheses_ex": "example",
+    "C13_render_ex": "example",
 }
 TRUSTED = [
     "Coq 8.16.1 kernel (coqc, vm_compute for correspondence only)",
